@@ -1365,3 +1365,9 @@ Qed.
 Lemma history_table_wire : forall is_ip mode now0 (h : list wire_op),
     history_ok is_ip mode (init_state now0) [] (map op_of_wire h).
 Proof. intros. apply history_table. Qed.
+
+(* direct and block are among the indices the real IsReserved answered true for *)
+Lemma builtin_direct_block :
+  is_reserved outbound_direct = true /\ is_reserved outbound_block = true /\
+  builtin_outbound outbound_direct = true /\ builtin_outbound outbound_block = true.
+Proof. vm_compute. repeat split; reflexivity. Qed.
